@@ -689,6 +689,8 @@ macro_rules! z_enum {
             },
             #[ts(as = "ZV2")]
             Va(i32),
+            #[ts(as = "ZW2", inline)]
+            Vai(i32),
             #[ts(type = "bigint")]
             Vt(ZL7),
             #[ts(skip)]
